@@ -559,8 +559,8 @@ def run_clientmain_part(chk, args):
         graphs = [("Gen_copy.cfg", 10 ** 6, 100 if q else 1000, 14), ("Gen_socks1.cfg", 10 ** 6, 100 if q else 600, 12), ("Gen_main.cfg", 10 if q else 60, 0, 10)]
         graph_jobs = [(g, extgraph.Bg(dump_graph, chk, g[0])) for g in graphs]
         # the full precedence table (1 944 argument vectors) is cut into 32 slices; the seed picks which ones are simulated
-        parts = [(chk.seed * 7 + k * 5) % 32 for k in range(1 if q else 6)]
-        sims = [("Gen_socks2.cfg", 150 if q else 1200, 40, None, "")] + [("Gen_sim.cfg", 100 if q else 300, 60, {"Part": str(pt)}, "-p%d" % pt) for pt in parts]
+        parts = [(chk.seed * 7 + k * 5) % 32 for k in range(1 if q else 5)]
+        sims = [("Gen_socks2.cfg", 150 if q else 900, 40, None, "")] + [("Gen_sim.cfg", 100 if q else 250, 60, {"Part": str(pt)}, "-p%d" % pt) for pt in parts]
         if not q:
             sims.append(("Gen_main2.cfg", 60, 40, None, ""))
         sim_jobs = [(cfg, extgraph.Bg(simulate, chk, cfg, num, depth, over, tag)) for cfg, num, depth, over, tag in sims]
@@ -599,7 +599,7 @@ def run_clientmain_part(chk, args):
         inpkg = [s for s in scheds if s["mode"] != "proc"]
         procs = [s for s in scheds if s["mode"] == "proc"]
         pj = extgraph.Bg(run_schedules, binary, procs, "proc", None, 2, None, chk)
-        traces = run_schedules(binary, inpkg, "main", chk=chk) + pj.get()
+        traces = run_schedules(binary, inpkg, "main", shards=SHARDS if q else 6, chk=chk) + pj.get()
         scheds = [s for s in scheds if s["id"] not in CRASHED]
         byid = {s["id"]: s for s in scheds}
         skipped = sum(t["skipped"] for t in traces)
